@@ -1471,6 +1471,10 @@ class ManifestRecursiveLoader:
                 if oe is fe:
                     del entries[i]
                     break
+            else:
+                # detached: an equal entry, if any, is its duplicate
+                if fe in entries:
+                    entries.remove(fe)
             self.updated_manifests.add(mpath)
             if fe.tag == 'MANIFEST':
                 unlinked_manifests.add(relpath)
